@@ -27,41 +27,71 @@ pub struct UniverseOutcome {
     pub machinery: Vec<String>,
 }
 
-/// Run the universe part for the given configurations.
-pub fn run_universe(id: &str, universe: &str, configs: &[CConfig], chunk: usize, level2: bool, seed: u64) -> UniverseOutcome {
+fn universe_types(name: &str) -> Vec<Ty> {
+    let mut out = Vec::new();
+    for part in name.split('+') {
+        out.extend(refabi::universe::universe(part));
+    }
+    let mut seen = BTreeSet::new();
+    out.retain(|t| seen.insert(t.clone()));
+    out
+}
+
+/// Run the universe part: `plan` = list of (universe name, configurations).
+pub fn run_universe(id: &str, plan: &[(String, Vec<CConfig>)], chunk: usize, level2: bool, seed: u64) -> UniverseOutcome {
     let clang = crate::cc::clang();
-    let all = refabi::universe::universe(universe);
     let mut excluded: BTreeMap<&'static str, usize> = BTreeMap::new();
-    let mut types = Vec::new();
-    for t in &all {
-        match world::exclusion(t) {
-            Some(r) => *excluded.entry(r).or_insert(0) += 1,
-            None => types.push(t.clone()),
+    let mut jobs: Vec<(CConfig, String, Vec<Ty>)> = Vec::new();
+    let mut plan_json = Vec::new();
+    let mut all_types: BTreeSet<Ty> = BTreeSet::new();
+    let mut configs: Vec<CConfig> = Vec::new();
+    for (uname, cfgs) in plan {
+        let all = universe_types(uname);
+        let mut types = Vec::new();
+        for t in &all {
+            match world::exclusion(t) {
+                Some(r) => {
+                    if all_types.insert(t.clone()) {
+                        *excluded.entry(r).or_insert(0) += 1;
+                    }
+                }
+                // a type already covered by an earlier (wider-configured) entry of the plan is not repeated
+                None => {
+                    if all_types.insert(t.clone()) {
+                        types.push(t.clone())
+                    }
+                }
+            }
+        }
+        plan_json.push(json!({"universe": uname, "types": types.len(), "configurations": cfgs.iter().map(|c| c.name()).collect::<Vec<_>>()}));
+        for cfg in cfgs {
+            if !configs.contains(cfg) {
+                configs.push(*cfg);
+            }
+            for (k, c) in chunks(&types, chunk).into_iter().enumerate() {
+                jobs.push((*cfg, format!("{}/{uname}#{k}", cfg.name()), c));
+            }
         }
     }
-    let cs = chunks(&types, chunk);
-    let mut jobs: Vec<(CConfig, usize)> = Vec::new();
-    for cfg in configs {
-        for k in 0..cs.len() {
-            jobs.push((*cfg, k));
-        }
-    }
-    // VERIF_SEED only rotates the order of work
+    // biggest universes first would starve nothing: VERIF_SEED only rotates the order of work
     if !jobs.is_empty() {
         let r = (seed as usize) % jobs.len();
         jobs.rotate_left(r);
     }
-    let timeout = 120_000;
+    let timeout = 300_000;
     let results = vcommon::par_map(jobs.len(), vcommon::ncpu(), |j| {
-        let (cfg, k) = &jobs[j];
-        engine::job(&cs[*k], cfg, &clang, level2, &format!("{}#{k}", cfg.name()), timeout)
+        let (cfg, label, types) = &jobs[j];
+        engine::job(types, cfg, &clang, level2, label, timeout)
     });
-    aggregate(id, universe, configs, &types, excluded, &results, chunk)
+    let types: Vec<Ty> = all_types.into_iter().filter(|t| world::exclusion(t).is_none()).collect();
+    let mut out = aggregate(id, &json!(plan_json), &configs, &types, excluded, &results, chunk);
+    out.coverage["jobs"] = json!(jobs.len());
+    out
 }
 
 pub fn aggregate(
     id: &str,
-    universe: &str,
+    universe: &Value,
     configs: &[CConfig],
     types: &[Ty],
     excluded: BTreeMap<&'static str, usize>,
@@ -336,13 +366,28 @@ pub fn main(id: &str) {
     if let Some(d) = run.replay_detail() {
         replay(id, &d);
     }
-    let universe = std::env::var("E4_UNIVERSE").unwrap_or_else(|_| run.pick("quick", "thorough").to_string());
-    let mut configs = if run.thorough() { CConfig::all() } else { vec![CConfig::DEFAULT] };
-    if let Ok(c) = std::env::var("E4_CONFIGS") {
-        configs = c.split(',').map(|n| CConfig::from_name(n).unwrap_or_else(|| vcommon::machinery("bad E4_CONFIGS"))).collect();
+    // quick: u1 ∪ pairs, default configuration.
+    // thorough: (u1 ∪ u2) x all six configurations, and the depth-3 universe u3r x the two
+    // configurations that differ most (default/utf8, no-sig-flattening/utf16).
+    let mut plan: Vec<(String, Vec<CConfig>)> = if run.thorough() {
+        vec![
+            ("u1+u2".to_string(), CConfig::all()),
+            ("u3r".to_string(), vec![CConfig::DEFAULT, CConfig { no_sig_flattening: true, autodrop: false, utf16: true }]),
+        ]
+    } else {
+        vec![("quick".to_string(), vec![CConfig::DEFAULT])]
+    };
+    if let Ok(u) = std::env::var("E4_UNIVERSE") {
+        plan = vec![(u, plan[0].1.clone())];
     }
-    let chunk = run.pick(32, 120);
-    let out = run_universe(id, &universe, &configs, chunk, true, run.seed);
+    if let Ok(c) = std::env::var("E4_CONFIGS") {
+        let cs: Vec<CConfig> = c.split(',').map(|n| CConfig::from_name(n).unwrap_or_else(|| vcommon::machinery("bad E4_CONFIGS"))).collect();
+        for p in plan.iter_mut() {
+            p.1 = cs.clone();
+        }
+    }
+    let chunk = run.pick(32, 60);
+    let out = run_universe(id, &plan, chunk, true, run.seed);
     let mut machinery = out.machinery;
     let mut violations = out.violations;
     let mut cov = out.coverage;
